@@ -918,6 +918,10 @@ fn handle_parse(ty: &str, a: &[&str]) -> Option<Resp> {
             Err(_) => Resp::ok("err".into()),
         }),
         ("Forwarded", [t]) => Some(match Forwarded::from_str(&ds(t)?) {
+            // every text is canonical for Forwarded (keyword or free text): it prints back as written
+            Ok(f) if f.to_string() != ds(t)? => {
+                Resp::with(forwarded_show(&f), Some(format!("from_str({:?}).to_string() = {:?}", ds(t)?, f.to_string())))
+            }
             Ok(f) => Resp::with(forwarded_show(&f), forwarded_oracle(&f)),
             Err(_) => Resp::ok("err".into()),
         }),
@@ -1153,6 +1157,8 @@ const TOKENS: &[&str] = &[
     "a", "b", "é", "日本", "0", "10", "=", "a=b", "k=v=w", "=x", "x=", "[", "]", "[x]", "[x]y", "x]y", "[x", "[]", "-b", "b", "!p", "!", "commit:", "commit:1",
     "Commit:1", "no", "not-needed", "yes", "backport", "vendor", "upstream", "other", "backport,", "Other", "<", ">", "@", "a@b", ",", "optional", "extra",
     "Git", "\u{1f600}", "a\u{301}",
+    // letter case: a value that is not a keyword keeps its spelling (after seeded change C18-r5m2)
+    "Ab", "https://Example.org/Pull/42", "NO", "Not-Needed", "D41D8CD98F00B204", "\u{130}x",
 ];
 /// outside the property's domain (white space inside / empty): correspondence only
 const NON_TOKENS: &[&str] = &[
